@@ -143,40 +143,10 @@ def state(index, rep):
     # module-level and class-level mutable containers: never written from functions
     for rel in run_files(index):
         mod = index.module(rel)
-        containers = {}
-        for st in mod.body:
-            if isinstance(st, ast.Assign) and isinstance(st.targets[0], ast.Name) and isinstance(st.value, (ast.List, ast.Dict, ast.Set)):
-                containers[st.targets[0].id] = ("module", st)
-        for c in [n for n in mod.body if isinstance(n, ast.ClassDef)]:
-            for st in c.body:
-                if isinstance(st, ast.Assign) and isinstance(st.targets[0], ast.Name) and isinstance(st.value, (ast.List, ast.Dict, ast.Set)):
-                    containers[c.name + "." + st.targets[0].id] = ("class", st)
         globals_written = [n for n in ast.walk(mod) if isinstance(n, ast.Global)]
         rep.check(not globals_written, rule, f"{rel}:no-global-statement",
                   "a function declares `global` (module state shared between runs)", loc=loc(rel, globals_written[0]) if globals_written else rel)
-        for name, (kind, st) in containers.items():
-            bad = []
-            short = name.split(".")[-1]
-            for fn in [n for n in ast.walk(mod) if isinstance(n, ast.FunctionDef)]:
-                shadows = any(isinstance(s, ast.Assign) and any(isinstance(t, ast.Name) and t.id == short for t in s.targets)
-                              for s in walk_no_nested(fn)) or short in [a.arg for a in fn.args.args]
-                if shadows and kind == "module":
-                    continue
-                for s in walk_no_nested(fn):
-                    if isinstance(s, (ast.Assign, ast.AugAssign, ast.Delete)):
-                        tg = s.targets if not isinstance(s, ast.AugAssign) else [s.target]
-                        for t in tg:
-                            base = t
-                            while isinstance(base, ast.Subscript):
-                                base = base.value
-                            d = dotted(base) or ""
-                            if isinstance(t, ast.Subscript) and (d == short and kind == "module" or d.endswith("." + short) and kind == "class"):
-                                bad.append(f"{fn.name}:{s.lineno}")
-                    if isinstance(s, ast.Call) and isinstance(s.func, ast.Attribute) and s.func.attr in (
-                            "append", "extend", "update", "pop", "clear", "insert", "remove", "setdefault", "sort"):
-                        d = dotted(s.func.value) or ""
-                        if d == short and kind == "module" or (d.endswith("." + short) and kind == "class"):
-                            bad.append(f"{fn.name}:{s.lineno}")
+        for name, kind, st, bad in shared_container_writes(index, rel):
             rep.check(not bad, rule, f"shared-container:{rel}:{name}", f"a {kind}-level container is modified by run code at {bad[:4]}",
                       loc=loc(rel, st))
     # memoised functions (lru_cache & co): their result is one object per process; nobody may write into it
@@ -193,6 +163,57 @@ def state(index, rep):
     if not findings:
         rep.ok(rule, "memoised-results-never-modified")
     rep.require_min(rule, 60)
+
+
+def shared_container_writes(index, rel):
+    """-> [(name, 'module'|'class', defining statement, [writer 'function:line', ...])] for every module-level / class-level
+    list, dict or set literal (or list()/dict()/set()/defaultdict() call) of the file"""
+    mod = index.module(rel)
+    containers = {}
+
+    def is_container(v):
+        return isinstance(v, (ast.List, ast.Dict, ast.Set)) or (isinstance(v, ast.Call) and (dotted(v.func) or "").split(".")[-1] in (
+            "list", "dict", "set", "defaultdict", "OrderedDict", "Counter", "deque"))
+
+    for st in mod.body:
+        if isinstance(st, ast.Assign) and isinstance(st.targets[0], ast.Name) and is_container(st.value):
+            containers[st.targets[0].id] = ("module", st)
+        if isinstance(st, ast.AnnAssign) and isinstance(st.target, ast.Name) and st.value is not None and is_container(st.value):
+            containers[st.target.id] = ("module", st)
+    for c in [n for n in mod.body if isinstance(n, ast.ClassDef)]:
+        for st in c.body:
+            if isinstance(st, ast.Assign) and isinstance(st.targets[0], ast.Name) and is_container(st.value):
+                containers[c.name + "." + st.targets[0].id] = ("class", st)
+            if isinstance(st, ast.AnnAssign) and isinstance(st.target, ast.Name) and st.value is not None and is_container(st.value):
+                containers[c.name + "." + st.target.id] = ("class", st)
+    out = []
+    for name, (kind, st) in containers.items():
+        bad = []
+        short = name.split(".")[-1]
+        for fn in [n for n in ast.walk(mod) if isinstance(n, ast.FunctionDef)]:
+            shadows = any(isinstance(s, ast.Assign) and any(isinstance(t, ast.Name) and t.id == short for t in s.targets)
+                          for s in walk_no_nested(fn)) or short in [a.arg for a in fn.args.args]
+            if shadows and kind == "module":
+                continue
+            # an instance attribute of the same name assigned in this function shadows the class attribute for `self.<name>`
+            for s in walk_no_nested(fn):
+                if isinstance(s, (ast.Assign, ast.AugAssign, ast.Delete)):
+                    tg = s.targets if not isinstance(s, ast.AugAssign) else [s.target]
+                    for t in tg:
+                        base = t
+                        while isinstance(base, ast.Subscript):
+                            base = base.value
+                        d = dotted(base) or ""
+                        if isinstance(t, ast.Subscript) and (d == short and kind == "module" or d.endswith("." + short) and kind == "class"):
+                            bad.append(f"{fn.name}:{s.lineno}")
+                if isinstance(s, ast.Call) and isinstance(s.func, ast.Attribute) and s.func.attr in (
+                        "append", "extend", "update", "pop", "clear", "insert", "remove", "setdefault", "sort", "add", "discard", "popitem",
+                        "appendleft"):
+                    d = dotted(s.func.value) or ""
+                    if d == short and kind == "module" or (d.endswith("." + short) and kind == "class"):
+                        bad.append(f"{fn.name}:{s.lineno}")
+        out.append((name, kind, st, bad))
+    return out
 
 
 def assigned_self_attrs(fn):
